@@ -97,9 +97,23 @@ class Impl:
 
         self.d, self.u, self.mutant = diagnostics, utils, mutant
 
+    O_REPR = ("c", "grain-transposed-view", "fortran", "c", "strided", "readonly")
+    F_REPR = ("c", "fortran", "strided", "c", "readonly")
+
     def _o(self, o):
         # mutant "columns": an implementation that builds the scatter matrix from columns
-        return np.transpose(o, (0, 2, 1)).copy() if self.mutant == "columns" else o
+        if self.mutant == "columns":
+            return np.transpose(o, (0, 2, 1)).copy()
+        # the same orientation set in different in-memory representations, cycling over the calls (the
+        # diagnostics are functions of the set of matrices, not of how the array happens to be laid out)
+        from harness.common import represent
+
+        self.n_o = getattr(self, "n_o", 0) + 1
+        kind = self.O_REPR[self.n_o % len(self.O_REPR)]
+        o = np.asarray(o, dtype=float)
+        if kind == "grain-transposed-view" and o.ndim == 3:
+            return np.ascontiguousarray(o.transpose(0, 2, 1)).transpose(0, 2, 1)
+        return represent(o, kind)
 
     @_guard("symmetry_pgr")
     def pgr(self, o, axis):
@@ -119,6 +133,11 @@ class Impl:
     def fse(self, F):
         F = np.asarray(F, dtype=float)
         # mutant "rightCG": an implementation that uses F^T.F instead of F.F^T
+        if self.mutant != "rightCG":
+            from harness.common import represent
+
+            self.n_f = getattr(self, "n_f", 0) + 1
+            F = represent(F, self.F_REPR[self.n_f % len(self.F_REPR)])
         e, v = self.d.finite_strain(F.T.copy() if self.mutant == "rightCG" else F)
         return float(e), np.asarray(v, dtype=float).reshape(-1)
 
